@@ -119,7 +119,8 @@ def coq_layers_enabled(idents, states, filler=False):
 
 
 def _run_item(case):
-    rid, ident, item, vals, strict, fmt = case           # vals: (config-layer value | None, set-layer value | None)
+    rid, ident, item, vals, strict, fmt = case[:6]       # vals: (config-layer value | None, set-layer value | None)
+    cli_enable = len(case) > 6 and case[6]               # also enable the rule on the command line, through the same identifier
     with Scratch("pv-c17i-") as d:
         li = {}
         if vals[0] is not None:
@@ -129,6 +130,8 @@ def _run_item(case):
         argv = write_layers(d, fmt, li)
         if strict:
             argv = ["--strict-config"] + argv
+        if cli_enable:
+            argv = ["-e", ident] + argv
         code, out, err = impl.run_cli(argv + ["plugins", "info", rid], cwd=d)
     val = None
     for line in out.split("\n"):
@@ -234,14 +237,19 @@ def run(ctx):
             for ident in idents:
                 for vals in pairs:
                     for strict in (False, True):
-                        icases.append((rid, ident, it["name"], vals, strict, "json" if vals[0] is None or isinstance(vals[0], (bool, int)) else "yaml"))
+                        fmt_ = "json" if vals[0] is None or isinstance(vals[0], (bool, int)) else "yaml"
+                        icases.append((rid, ident, it["name"], vals, strict, fmt_, False))
+                        if vals != (None, None) and (ctx.tier == "thorough" or (zlib.crc32(repr((rid, ident, it["name"], vals, strict)).encode()) + ctx.seed) % 3 == 0):
+                            icases.append((rid, ident, it["name"], vals, strict, fmt_, True))   # the way the rule is enabled must not change where its settings are looked up
     ires = impl.pmap(_run_item, icases, chunksize=16)
     coq2, idx2 = [], []
     for i, (case, (code, val, err)) in enumerate(zip(icases, ires)):
-        rid, ident, item, vals, strict, fmt = case
+        rid, ident, item, vals, strict, fmt, cli_en = case
         it = next(x for x in rules[rid]["items"] if x["name"] == item)
         ctx.count(1, "item/" + it["ty"])
         inp = {"rule": rid, "ident": ident, "item": item, "config_layer": vals[0], "set_layer": vals[1], "strict": strict}
+        if cli_en:
+            inp["cli_enable"] = ident
         ctx.seen(inp)
         # the documented behaviour, evaluated in Python for the modelled validators
         eff = vals[1] if vals[1] is not None else vals[0]
@@ -286,7 +294,7 @@ def run(ctx):
     return ctx.finish(
         level="proof",
         rule="(1) {unset,true,false}^4 layers (+invalid string values; thorough: all 4^4) x cli {none,-e,-d,both} x every identifier of a default-enabled and a default-disabled rule x strict x config format; plus mixed-identifier stacks (model correspondence only); "
-             "(2) every configuration item of every rule x {in range, out of range, wrong type} in the --config and --set layers x lenient/strict x id/alias; non-trivial = some layer or switch set; distinct by input",
+             "(2) every configuration item of every rule x {in range, out of range, wrong type} in the --config and --set layers x lenient/strict x id/alias, a third of them also with the rule enabled by -e through the same identifier; non-trivial = some layer or switch set; distinct by input",
         assumptions=["`plugins list` / `plugins info` show the state the scan would use (they share __determine_if_plugin_enabled and initialize_from_config)",
                      "items with opaque validators (md025/md041 front_matter_title, md035 style, md043 headings) are compared with the model only for type errors"],
         extra_cov={"exhaustive": ctx.tier == "thorough"},
